@@ -300,6 +300,9 @@ func cmdCheck(args []string) {
 				}
 			case "violation", "known":
 				reproduced := r.Panic != "" && pr.v.Kind == "panic"
+				if pr.v.Kind == "race" && strings.Contains(r.Raw, "DATA RACE") {
+					reproduced = true
+				}
 				for _, l := range r.AssertFails {
 					if l == pr.v.Label {
 						reproduced = true
@@ -428,6 +431,17 @@ func writeEvidence(id, tier string, seed int, ps *PropSpec, L *Loaded, runs []*H
 			"ssa_instructions": r.Steps, "queries": r.Queries, "solver_s": round2(r.SolveTime.Seconds()), "wall_s": round2(r.Wall.Seconds()),
 			"assert_labels_discharged_by_solver": r.AssertsChecked, "assert_labels_constant_true": r.AssertsTrivial, "reach_labels": r.Reached, "caught_panics": len(r.Panics)})
 	}
+	depg := map[string]bool{}
+	for _, r := range runs {
+		for g := range r.DepGlobals {
+			depg[g] = true
+		}
+	}
+	var depgl []string
+	for g := range depg {
+		depgl = append(depgl, g)
+	}
+	sort.Strings(depgl)
 	var fl []string
 	for f := range funcs {
 		fl = append(fl, f)
@@ -473,6 +487,7 @@ func writeEvidence(id, tier string, seed int, ps *PropSpec, L *Loaded, runs []*H
 			"inconclusive":                  inconclusive,
 			"known_findings_reported":       known,
 			"source_files_loaded":           len(L.Files),
+			"dependency_globals_read_with_default_value": depgl,
 		},
 	}
 	b, _ := json.MarshalIndent(ev, "", " ")
